@@ -1,8 +1,8 @@
-#!/bin/sh
+#!/bin/bash
 # usage: tools_regress_seeded.sh <scratch-worktree> <id>...   -- run the quick check of each seeded change's property against it
 WT="$1"; shift
 for id in "$@"; do
   P=$(python3 -c "import json;print(json.load(open('/verif/seeded/$id/meta.json'))['property'])")
-  R=$(/verif/tools_try_seeded.sh "$WT" /verif/seeded/$id/patch.diff "$P" 2>&1)
-  if echo "$R" | grep -q "^VIOLATION"; then echo "$id $P CAUGHT $(echo "$R" | grep -m1 -o 'violation at run [0-9]*\|violation in batch[^:]*')"; else echo "$id $P MISSED"; echo "$R" | tail -n 3; fi
+  /verif/tools_try_seeded.sh "$WT" /verif/seeded/$id/patch.diff "$P" > /tmp/regress-$id.out 2>&1
+  if grep -q "^VIOLATION" /tmp/regress-$id.out; then printf '%s %s CAUGHT %s\n' "$id" "$P" "$(grep -m1 -o 'violation at run [0-9]*\|violation in batch[^:]*' /tmp/regress-$id.out)"; else printf '%s %s MISSED\n' "$id" "$P"; fi
 done
